@@ -130,6 +130,30 @@ Section FW.
     - cbn. split; [lia|exact Hs].
   Qed.
 
+  (** [fw_wf] (side condition of the time_until_available theorems) holds in every reachable state. *)
+  Lemma fw_wf_step s lo o : fw_wf s lo -> lo <= time_of o -> fw_wf (fst (step s o)) (time_of o).
+  Proof.
+    intros Hwf Hlo. set (t := time_of o) in *.
+    destruct (reset_spec s lo t Hwf Hlo) as (R1 & R2 & _).
+    assert (WR : fw_wf (fw_reset wn s t) t).
+    { split; [exact R2|]. rewrite R1. exists (win_of t). split; [auto|lia]. }
+    destruct o as [t'|t']; cbn [fw_step time_of] in *; subst t.
+    - unfold fw_acquire. destruct (Z.ltb_spec (fw_count (fw_reset wn s t')) n); cbn [fst]; [|exact WR].
+      split; cbn [fw_count fw_start]; [lia|]. rewrite R1. exists (win_of t'). split; [auto|lia].
+    - assert (fst (tua s t') = fw_reset wn s t').
+      { unfold fw_tua. destruct (_ <? _); [|destruct (fw_start _); [destruct (nle _ _ _)|]]; reflexivity. }
+      rewrite H. exact WR.
+  Qed.
+
+  Theorem fw_wf_reachable ops : forall s lo, fw_wf s lo -> nondecr lo ops ->
+    fw_wf (fst (run_count granted step s ops)) (last_time lo ops).
+  Proof.
+    induction ops as [|o r IH]; intros s lo Hwf Hnd; cbn [run_count last_time]; [exact Hwf|].
+    destruct Hnd as [Hlo Hnd]. pose proof (fw_wf_step s lo o Hwf Hlo) as W1.
+    destruct (step s o) as [s1 x]. cbn [fst] in W1. specialize (IH s1 _ W1 Hnd).
+    destruct (run_count granted step s1 r) as [s2 k]. exact IH.
+  Qed.
+
   (** ... hence at most 2N in any interval of one window length [a, a + w]. *)
   Lemma filter_or_length {A} (p q r : A -> bool) l : (forall x, p x = true -> q x = true \/ r x = true) ->
     (length (filter p l) <= length (filter q l) + length (filter r l))%nat.
